@@ -84,6 +84,8 @@ class VariableAccessTransformer(converter.Base):
 
   def visit_AugAssign(self, node):
     if isinstance(node.target, ast.Name):
+      # The operand is read like any other expression.
+      node.value = self.visit(node.value)
       template = """
         var_ = ag__.ld(var_)
         original
